@@ -209,7 +209,8 @@ Record flushed (t t' : tstate) : Prop := {
   fl_mid : tmid t';
   fl_rows : part_rows (t_parts t') = part_rows (t_parts t) ++ t_frozen t;
   fl_buf : t_buf t' = t_buf t;
-  fl_meta : t_meta t' = t_meta t
+  fl_meta : t_meta t' = t_meta t;
+  fl_files : appended_files t t'
 }.
 
 Lemma ensure_cols_other : forall n (l l' : tabsT) m,
@@ -232,7 +233,7 @@ Lemma flush_table_spec : forall c o n (l l' : tabsT) t,
 Proof.
   intros c o n l l' t E P. unfold flush_table. rewrite E.
   set (szs := sizes_for o n). set (t1 := batch_table (fst szs) t).
-  destruct (batch_table_spec (fst szs) t P) as [P1 [Hfr [Hb [Hm [Hc Hr]]]]]. fold t1 in P1, Hfr, Hb, Hm, Hc, Hr.
+  destruct (batch_table_spec (fst szs) t P) as [P1 [Hfr [Hb [Hm [Hc [Hr Haf]]]]]]. fold t1 in P1, Hfr, Hb, Hm, Hc, Hr, Haf.
   destruct (plan_compaction (c_factor c) (t_parts t1)) as [|i|] eqn:Epl; try discriminate.
   - intro H. injection H as <-. split; [apply keys_upd|]. split.
     + intros m Hne. apply lookup_upd_other. exact Hne.
@@ -248,12 +249,14 @@ Proof.
     rewrite E2 in L2. injection L2 as <-.
     pose proof (tpre_modc _ _ M2 P1) as P2.
     destruct (modc_fields _ _ M2) as [Fb [Ff [Fp [_ [_ [_ [Fm _]]]]]]].
-    destruct (compact_spec _ _ _ _ _ P2 (eq_trans Ff Hfr) Ec) as [Mid [Cb [Cm [_ Cr]]]].
+    destruct (compact_spec _ _ _ _ _ P2 (eq_trans Ff Hfr) Ec) as [Mid [Cb [Cm [_ [Cr Caf]]]]].
     split; [rewrite keys_upd, K1; apply keys_upd|]. split.
     + intros m Hne. rewrite lookup_upd_other; auto.
       rewrite (ensure_cols_other _ _ _ m Ee Hne). apply lookup_upd_other. exact Hne.
     + exists t3. split; [eapply lookup_upd_same; eauto|].
       constructor; auto; try congruence.
+      eapply appended_files_trans; [exact Haf|].
+      destruct M2 as [cc ->]. exact Caf.
 Qed.
 
 Lemma flush_tables_spec : forall c o names (l l' : tabsT),
@@ -290,7 +293,7 @@ Lemma flush_spec : forall c o s s',
   earliest s' = next_wal s /\ next_wal s' = next_wal s /\
   forall n, t_buf (view (tabs s') n) = [].
 Proof.
-  intros c o s s' I. unfold flush.
+  intros c o s s' I. unfold flush, flush_mid.
   destruct (freeze_all (tabs s)) as [l0| | | |] eqn:E0; cbn [bind]; try discriminate.
   destruct (flush_tables true c o (map fst l0) l0) as [l1| | | |] eqn:E1; cbn [bind]; try discriminate.
   destruct (map_tabs SNoTable (fun t => Some (publish_meta t)) l1) as [l2| | | |] eqn:E2;
@@ -325,7 +328,7 @@ Proof.
                        table_content t3 = table_content t).
   { intros n t Lt. destruct (S0 _ _ Lt) as [t0 [F0 L0]].
     assert (HI : In n (map fst l0)) by (eapply lookup_some_in; eauto).
-    destruct (F1 _ _ HI L0) as [t1 [L1 [Mid Hr Hb Hm]]].
+    destruct (F1 _ _ HI L0) as [t1 [L1 [Mid Hr Hb Hm _]]].
     destruct (S2 _ _ L1) as [t2 [P2 L2]]. injection P2 as <-.
     destruct (S3 _ _ L2) as [t3 [D3 L3]].
     destruct (finish_spec _ Mid) as [t3' [D3' [T3 [Hp3 [Hb3 _]]]]].
@@ -569,7 +572,7 @@ Lemma step_guard : forall c s o s', step true c s o = Val s' -> step false c s o
 Proof.
   intros c s o s'. destruct o; cbn [step]; auto.
   destruct (bg && negb (bg_enabled c s)); auto.
-  unfold flush. destruct (freeze_all (tabs s)); cbn [bind]; auto.
+  unfold flush, flush_mid. destruct (freeze_all (tabs s)); cbn [bind]; auto.
   destruct (flush_tables true c o _ a) eqn:E; cbn [bind]; try discriminate.
   rewrite (flush_tables_guard _ _ _ _ _ E). auto.
 Qed.
